@@ -7,6 +7,7 @@ conservation of the pool of servers still to be asked, and that the servermap's 
 observed shares only grows (DESIGN.md section 5, C11)."""
 from sa.h import *
 from sa.cfg import reaching_defs
+from . import C14 as _C14
 
 EXPLANATION = (
     "Decided: (1) every store of Publish._new_seqnum is servermap.highest_seqnum() + c with c >= 1, or a constant "
@@ -24,7 +25,14 @@ EXPLANATION = (
     "version map themselves (loop or comprehension) or derive their answer from shares_available(), in which case the "
     "count shares_available() files per version must be the number of distinct share numbers (a set of share numbers, "
     "built by a comprehension or filled by a loop that adds the share number of every placement and is reset per "
-    "version), not the number of (shnum, server, timestamp) placements; best_recoverable_version() answers None only on the branch where the recoverable "
+    "version), not the number of (shnum, server, timestamp) placements; where these queries (and highest_seqnum(), "
+    "shares_available(), and an unrecoverable_newer_versions() that _check_for_done tests instead of looping) are "
+    "written in another shape - helpers, one shared per-version table, max(.., default=c) - their value is computed "
+    "symbolically from self._known_shares (the evaluation of C14.11) and must be exactly the versions with k <= "
+    "distinct share numbers / distinct < k / the maximum seqnum over every version / a superset of the versions with "
+    "distinct < k above the highest recoverable seqnum, and a query neither analysis follows is not decided; "
+    "max(recoverable_versions(), default=None) is the last of the sorted versions, None exactly when there is none; "
+    "best_recoverable_version() answers None only on the branch where the recoverable "
     "versions were found empty; an unrequested read version is best_recoverable_version(); (3) in MODE_READ, "
     "ServermapUpdater._check_for_done reaches _done() only when no query is outstanding and no server is left, or "
     "after the query quota is met, a recoverable version exists, and the loop over unrecoverable_versions() ran to "
@@ -58,7 +66,8 @@ TECHNIQUE = ("static analysis: polynomial normal form of the seqnum formula, who
              "across producers/consumers, CFG x fact-monitor exploration of the MODE_READ completion predicate, "
              "path-sensitive conservation (typestate) of servers leaving the query pool with method/caller summaries, "
              "symbolic per-version evaluation (distinct share numbers vs placements) across "
-             "shares_available()/recoverable_versions(), who-may-remove sweep over every use of _known_shares with "
+             "shares_available()/recoverable_versions(), shape-independent symbolic evaluation of the ServerMap queries "
+             "from _known_shares (shared with C14.11) where they are not loop-shaped, who-may-remove sweep over every use of _known_shares with "
              "must-precede/must-follow pairing against _bad_shares, call-closure of the query errbacks")
 
 LAY = "mutable.layout"
@@ -973,7 +982,82 @@ def _available_summary(idx, sh_pos, sh_len):
     return (fn, n, val)
 
 
-def _recoverability(idx, r, q, want, what, iK, sh_pos, sh_len, avail, told):
+# ---- shape-independent value of the ServerMap queries (the symbolic evaluation written for C14.11) ------------------
+# Used where a query is no longer written in the loop / comprehension shape the rules below take apart (helpers
+# extracted, one shared per-version table, ...).  An own evaluator instance: the problems it records are reported here.
+_SYM = {}
+W_ALL, W_GE, W_LT, W_NEWER = _C14.W_ALL, _C14.W_GE, _C14.W_LT, _C14.W_NEWER
+
+
+class _NotLoopShaped(Exception):
+    """The legacy (shape-bound) analysis met a query that is not written as it expects; carries its old verdict."""
+
+    def __init__(self, fn, node, msg):
+        Exception.__init__(self, msg)
+        self.fn, self.node, self.msg = fn, node, msg
+
+
+def _sym_value(idx, name, shape):
+    """-> (symbolic value of ServerMap.<name>() | None, why it is undecided)."""
+    if shape is None or shape.get("SEQ") != 0 or shape.get("K") != 5:
+        return None, "the verinfo no longer has seqnum at 0 and k at 5, which the symbolic evaluation assumes"
+    if _SYM.get("idx") is not idx:
+        _SYM.clear()
+        _SYM.update(idx=idx, ev=_C14._SMEval(idx), told=set())
+    try:
+        return _SYM["ev"].method(name), None
+    except _C14._Undecided as e:
+        return None, str(e)
+
+
+def _sym_problems(r):
+    """Report (once) what the symbolic evaluation found wrong on its way; -> number of problems known so far."""
+    ev = _SYM.get("ev")
+    if ev is None:
+        return 0
+    for (pf, node, msg) in ev.problems:
+        key = (pf.qual, msg)
+        if key not in _SYM["told"]:
+            _SYM["told"].add(key)
+            r.violation(pf, pf.loc(node), msg + " - so recoverable_versions() / best_recoverable_version() and the "
+                        "MODE_READ completion test can settle on a version that cannot be read")
+    return len(ev.problems)
+
+
+def _recoverability_symbolic(idx, r, fn, name, want, what, shape):
+    """recoverable_versions() / unrecoverable_versions() decided by their symbolic value: exactly the versions with
+    k <= distinct share numbers / distinct share numbers < k.  False when the evaluation does not decide."""
+    val, _why = _sym_value(idx, name, shape)
+    if val is None:
+        return False
+    r.site(fn, None, "%s: decided by symbolic evaluation" % what)
+    _sym_problems(r)
+    if val[0] != "verset":
+        return False
+    WANT = W_GE if want == ">=" else W_LT
+    if val[1] - WANT:
+        r.violation(fn, fn.loc(), "%s reports as %s versions %s" % (short(fn), what, _C14._worlds_txt(val[1] - WANT)))
+    if WANT - val[1]:
+        r.violation(fn, fn.loc(), "%s leaves out versions %s: a version with its shares located is then neither "
+                    "recoverable nor unrecoverable for the reader" % (short(fn), _C14._worlds_txt(WANT - val[1])))
+    return True
+
+
+def _recoverability(idx, r, q, want, what, iK, sh_pos, sh_len, avail, told, shape=None):
+    fn = idx.func(q)
+    try:
+        _recoverability_loops(idx, r, q, want, what, iK, sh_pos, sh_len, avail, told)
+    except _NotLoopShaped as e:
+        if not _recoverability_symbolic(idx, r, fn, fn.name, want, what, shape):
+            # neither shape is recognised: not decided (a restructured but faithful query must not raise an alarm)
+            raise AnalysisError("%s: %s, and its symbolic evaluation does not decide it either: %s" % (
+                e.fn.loc(e.node), e.msg, _sym_value(idx, fn.name, shape)[1] or "not a set of versions"))
+    except AnchorVanished:
+        if not _recoverability_symbolic(idx, r, fn, fn.name, want, what, shape):
+            raise
+
+
+def _recoverability_loops(idx, r, q, want, what, iK, sh_pos, sh_len, avail, told):
     """ServerMap.recoverable_versions() / unrecoverable_versions(): a version is collected only behind the test
     "number of distinct share numbers `want` k", whether the function walks the version map itself or derives its
     answer from shares_available() (then the count that shares_available() files must be the distinct one)."""
@@ -1046,8 +1130,7 @@ def _recoverability(idx, r, q, want, what, iK, sh_pos, sh_len, avail, told):
             g = comp.generators[0]
             kind = source(n, g.iter)
             if kind is None:
-                r.violation(fn, fn.loc(comp), "%s does not iterate over the whole version map" % short(fn))
-                continue
+                raise _NotLoopShaped(fn, comp, "%s does not iterate over the whole version map" % short(fn))
             pv.enter(None, bind_target(g.target, kind, comp))
             r.require(_core(pv.sym(n, comp.elt)) == _VER, fn, fn.loc(comp.elt),
                       "%s collects %s instead of the version it tested" % (short(fn), src(fn, comp.elt)))
@@ -1072,8 +1155,7 @@ def _recoverability(idx, r, q, want, what, iK, sh_pos, sh_len, avail, told):
     if len(loops) != 1:
         if len(cands) == 1 and not loops:
             r.site(fn, cands[0].ast, what)
-            r.violation(fn, fn.loc(cands[0].ast), "%s does not iterate over the whole version map" % short(fn))
-            return
+            raise _NotLoopShaped(fn, cands[0].ast, "%s does not iterate over the whole version map" % short(fn))
         raise AnchorVanished("%s: loop over the version map" % q)
     lp = loops[0]
     ret = _Returned(fn)
@@ -1256,6 +1338,12 @@ def run(ctx: Context):
             form = bn.norm(n, v)
             if re.match(r"^max\(%s\)$" % RV, form) or re.match(r"^sorted\(%s\)\[\(-1\)\]$" % RV, form):
                 continue
+            # max(X, default=None): the greatest element == the last of sorted(X); None exactly when X is empty
+            if isinstance(v, ast.Call) and call_name(v) == "max" and len(v.args) == 1 and len(v.keywords) == 1 \
+                    and v.keywords[0].arg == "default" and isinstance(v.keywords[0].value, ast.Constant) \
+                    and v.keywords[0].value.value is None and not isinstance(v.args[0], ast.Starred) \
+                    and re.match(r"^%s$" % RV, bn.norm(n, v.args[0])):
+                continue
             ok = isinstance(v, ast.Subscript) and isinstance(v.value, ast.Name) and bn.norm(n, v.slice) == "(-1)" \
                 and re.match(r"^%s$" % RV, bn.norm(n, v.value)) is not None
             r.require(ok, bf, bf.loc(n.ast), "best_recoverable_version returns %s, not the last of the sorted "
@@ -1355,7 +1443,7 @@ def run(ctx: Context):
         told = set()
         for q, want, what in ((SM + ".recoverable_versions", ">=", "recoverable"),
                               (SM + ".unrecoverable_versions", "<", "unrecoverable")):
-            _recoverability(idx, r, q, want, what, iK, sh_pos, sh_len, avail, told)
+            _recoverability(idx, r, q, want, what, iK, sh_pos, sh_len, avail, told, shape)
         # a read that names no version takes the best recoverable one
         gv = idx.func(MFN + "._get_version_from_servermap._get_version")
         gps = first_positional_params(gv)
@@ -1490,6 +1578,15 @@ def run(ctx: Context):
                 it = hn.norm(at, g.iter)
                 ok = var is not None and not g.ifs and norm_plain(comp.elt) == "%s[%d]" % (var, iSEQ) \
                     and re.match(r"^self\.shares_available\(\)(\.keys\(\))?$", it) is not None
+            if not ok:
+                # not in that shape: decided by its symbolic value - the maximum seqnum over EVERY known version
+                sv, _why = _sym_value(idx, "highest_seqnum", shape)
+                if sv is not None and sv[0] == "maxseq":
+                    _sym_problems(r)
+                    r.require(sv[1] == W_ALL, hs, hs.loc(n.ast), "highest_seqnum() is the maximum seqnum of the versions "
+                              "%s only: the next publish can re-use or fall below a sequence number the survey has seen"
+                              % _C14._worlds_txt(sv[1]))
+                    continue
             r.require(ok, hs, hs.loc(n.ast), "highest_seqnum() is %s, not the maximum of verinfo[%d] over every version "
                       "in shares_available()" % (src(hs, v), iSEQ))
         # shares_available / make_versionmap enter every version / share unconditionally
@@ -1498,11 +1595,21 @@ def run(ctx: Context):
             fn = idx.func(q)
             fnm = FlowNorm(fn, depth=8)
             cfg = fn.cfg()
-            is_entry = _Returned(fn).is_entry      # an entry made in the dict the function returns
             loops = [n for n in cfg.nodes if n.kind == "iter" and re.match(over, fnm.norm(n, n.ast.iter))]
             if len(loops) != 1:
+                # e.g. shares_available() answered from a shared per-version helper: its symbolic value (computed from
+                # self._known_shares; a filter on the shares themselves leaves it undecided) has an entry per version
+                sv, _why = _sym_value(idx, fn.name, shape)
+                if sv is not None and sv[0] in ("pv", "pvf"):
+                    _sym_problems(r)
+                    r.site(fn, None, "every version counted (symbolic evaluation)")
+                    r.require(sv[0] == "pv", fn, fn.loc(), "%s has entries only for the versions %s (a filtered survey "
+                              "makes highest_seqnum() miss versions the writer has seen)" % (
+                                  short(fn), _C14._worlds_txt(sv[1]) if sv[0] == "pvf" else ""))
+                    continue
                 raise AnchorVanished("%s: loop over all versions / shares" % q)
             lp = loops[0]
+            is_entry = _Returned(fn).is_entry      # an entry made in the dict the function returns
             r.site(fn, lp.ast, "every version counted")
             if not [m for m in cfg.nodes if is_entry(m)]:
                 raise AnchorVanished("%s no longer records entries" % q)
@@ -1594,6 +1701,27 @@ def run(ctx: Context):
                           r"max\(\[?\w+\[%d\] for \w+ in %s\]?\))$" % (RECOV, iSEQ, iSEQ, iSEQ, RECOV))
         UNREC = re.compile(r"^(list\(|sorted\()?self\._servermap\.unrecoverable_versions\(\)\)?$")
         loops = [n for n in cfg.nodes if n.kind == "iter" and UNREC.match(fnm.norm(n, n.ast.iter))]
+        # ... or the question "is there an unrecoverable version newer than every recoverable one" is put to the
+        # servermap: a test of self._servermap.unrecoverable_newer_versions(), whose symbolic value must keep every
+        # version with distinct shares < k and seqnum above the highest recoverable seqnum
+        NEWER = "self._servermap.unrecoverable_newer_versions()"
+        newer_tests = [n for n in cfg.nodes if n.kind == "test" and any(
+            (fnm.edge_fact(n, lab) or ("", ""))[0] in ("truth", "false") and (fnm.edge_fact(n, lab) or ("", ""))[1] == NEWER
+            for (d, lab) in cfg.succ[n.id])]
+        newer_ok = False
+        if newer_tests:
+            sv, why = _sym_value(idx, "unrecoverable_newer_versions", shape)
+            if sv is None or sv[0] not in ("pv", "pvf"):
+                raise AnalysisError("_check_for_done decides by unrecoverable_newer_versions(), whose value is not "
+                                    "decided: %s" % (why or "not a dict keyed by version"))
+            _sym_problems(r)
+            unf = idx.func(SM + ".unrecoverable_newer_versions")
+            keeps = W_ALL if sv[0] == "pv" else sv[1]
+            newer_ok = (W_LT & W_NEWER) <= keeps
+            r.site(unf, None, "newer unrecoverable versions (symbolic evaluation)")
+            r.require(newer_ok, unf, unf.loc(), "unrecoverable_newer_versions() leaves out a version that has fewer than k "
+                      "distinct shares and a seqnum above the highest recoverable one, and the MODE_READ completion test "
+                      "relies on it: the update finishes although a newer version was seen")
         mode_tests = [n for n in cfg.nodes if n.kind == "test" and any(
             (fnm.edge_fact(n, lab) or ("",))[0] in ("==", "!=") and "MODE_READ" in (fnm.edge_fact(n, lab) or ())
             for (d, lab) in cfg.succ[n.id])]
@@ -1639,6 +1767,12 @@ def run(ctx: Context):
                     need_edges.setdefault((a.id, lab[0]), (a, "no version is recoverable yet"))
                 if op == "truth" and x == "self._queries_outstanding":
                     s["wait"] = True
+                if newer_ok and x == NEWER and a.kind == "test":
+                    if op == "false":
+                        s["loop"] = True        # every unrecoverable version examined: none is newer
+                    elif op == "truth":
+                        s["need"] = True
+                        need_edges.setdefault((a.id, lab[0]), (a, "an unrecoverable version with a higher seqnum was seen"))
             if lab != "exc":
                 for c in node_calls(a):
                     if call_name(c) == "self._send_more_queries":
@@ -1676,7 +1810,9 @@ def run(ctx: Context):
                 break
         if not n_done:
             raise AnchorVanished("no _done() reachable in MODE_READ")
-        if not loops:
+        for n in newer_tests:
+            r.site(fn, n.ast, "newer-version question put to the servermap")
+        if not loops and not newer_tests:
             r.violation(fn, fn.loc(), "MODE_READ no longer examines the unrecoverable versions for a higher seqnum")
         for lp in loops:
             r.site(fn, lp.ast, "newer-version scan")
